@@ -140,7 +140,20 @@ def ssa_to_lin(ssa, n):
     return out
 
 
-def make_tree(inputs, output, size, ssa, cfg, variant, build="ssa"):
+def warm_up(tree):
+    """ask for every figure (fills every per-node cache, leaves included) before the tree is modified"""
+    tree.peak_size()
+    tree.contract_stats()
+    tree.total_flops(), tree.total_write(), tree.max_size()
+    for nd in list(tree.info):
+        tree.get_size(nd)
+        tree.get_legs(nd)
+        if len(nd) > 1:
+            tree.get_flops(nd)
+            tree.get_involved(nd)
+
+
+def make_tree(inputs, output, size, ssa, cfg, variant, build="ssa", warm=0):
     from cotengra.core import ContractionTree
 
     n = len(inputs)
@@ -161,7 +174,9 @@ def make_tree(inputs, output, size, ssa, cfg, variant, build="ssa"):
         tree.total_flops()
         tree.total_write()
         tree.max_size()
-    for ix, mode in cfg:
+    for k, (ix, mode) in enumerate(cfg):
+        if warm == 2 or (warm == 1 and k == 0):
+            warm_up(tree)
         if mode == "s":
             tree.remove_ind_(ix)
         else:
@@ -189,12 +204,13 @@ def run_item(item, rec):
                     build = ["ssa", "multi", "ssa", "auto"][(ti + 2 * ci) % 4] if n >= 3 else "ssa"
                     if n >= 4 and ti == 0:
                         build = "multi3"
+                    warm = (ti + 2 * ci) % 3 if cfg else 0
                     case = dict(inputs=list(inputs), output=output, ones=list(ones), ssa=[list(p) for p in ssa],
-                                cfg=[list(x) for x in cfg], variant=variant, build=build)
+                                cfg=[list(x) for x in cfg], variant=variant, build=build, warm=warm)
 
-                    def harness(ctx, cfg=cfg, ssa=ssa, ones=ones, variant=variant, case=case, use_sym_order=use_sym_order, build=build):
+                    def harness(ctx, cfg=cfg, ssa=ssa, ones=ones, variant=variant, case=case, use_sym_order=use_sym_order, build=build, warm=warm):
                         size = {c: (1 if c in ones else symx.sym_int("d_" + c, 2)) for c in labels}
-                        tree = make_tree(inputs, output, size, ssa, cfg, variant, build)
+                        tree = make_tree(inputs, output, size, ssa, cfg, variant, build, warm)
                         st = tree.contract_stats()
                         tf, tw, ms = tree.total_flops(), tree.total_write(), tree.max_size()
                         order = SymOrder() if use_sym_order else None
@@ -291,8 +307,8 @@ def run_item(item, rec):
         rec.validated += validate_concrete(inputs, output, labels, trees[-1], cfgs[-1])
 
 
-def concrete_stats(inputs, output, size, ssa, cfg, variant, order=None, build="ssa"):
-    tree = make_tree(inputs, output, size, ssa, cfg, variant, build)
+def concrete_stats(inputs, output, size, ssa, cfg, variant, order=None, build="ssa", warm=0):
+    tree = make_tree(inputs, output, size, ssa, cfg, variant, build, warm)
     st = tree.contract_stats()
     steps = list(tree.traverse(order))
     sliced = [ix for ix, m in cfg if m == "s"]
@@ -324,7 +340,7 @@ def replay(v):
         keys = {frozenset(nd): k for nd, k in v["order_keys"]}
         order = lambda node: keys.get(node, 0)  # noqa
     if v["label"].startswith("stats"):
-        got, want, per = concrete_stats(inputs, output, size, ssa, cfg, case["variant"], order, case.get("build", "ssa"))
+        got, want, per = concrete_stats(inputs, output, size, ssa, cfg, case["variant"], order, case.get("build", "ssa"), case.get("warm", 0))
         want = {k: (z3.simplify(x).as_long() if z3.is_expr(x) else x) for k, x in want.items()}
         if got != want:
             return True, f"reported {got} != definition {want}"
@@ -337,7 +353,7 @@ def replay(v):
     # part (b): run with real numpy arrays and record shapes
     import numpy as np
 
-    tree = make_tree(inputs, output, size, ssa, cfg, case["variant"], case.get("build", "ssa"))
+    tree = make_tree(inputs, output, size, ssa, cfg, case["variant"], case.get("build", "ssa"), case.get("warm", 0))
     seen = []
 
     def rec_einsum(eq, *ops):
